@@ -14,16 +14,22 @@ Definition gen_constants_ok : Prop :=
   w_pad = 2 /\ w_paren_open = " (" /\ w_paren_close = ")" /\ w_pin_eq = "==" /\
   w_via_many = "via" ++ nl /\ w_via_one = "via " /\
   l_cont = "\" /\ l_cont_prefixes = ["#"; "--"] /\ l_hash_split = "--hash=" /\
-  l_idx_close = "] " /\ l_src_sep = ", " /\ l_via = "via" /\ l_via_skip = 4 /\ l_via_sp = " via" /\
+  l_idx_close = "] " /\ l_src_sep = ", " /\ l_via = "via" /\ l_via_skip = 4 /\ l_via_word = "via " /\ l_via_pad = " " /\
   url_like "via" = false /\ url_like "" = false /\
   (* the URL forms and the requirer-is-a-path tests the round trip was proved for: every archive
      extension req-compile accepts as a candidate (repository.py) must be recognised by the loader *)
   sol_url_prefixes = ["http://"; "https://"] /\
   sol_url_suffixes = [".whl"; ".gz"; ".tgz"; ".zip"; ".tar"; ".bz2"] /\
-  sol_path_suffixes = [".txt"; ".out"] /\ sol_path_infixes = ["\"; "/"] /\ sol_missing = "0+missing".
+  sol_path_suffixes = [".txt"; ".out"] /\ sol_path_infixes = ["\"; "/"] /\
+  (* the layout chosen by the tool (multiline=None): multi-line as soon as hashes or URLs are written -
+     the one-line layout has no place for a URL that the reader could find again *)
+  (forall hashes urls, w_default_multi hashes urls = hashes || urls).
 
 Lemma gen_constants_hold : gen_constants_ok.
-Proof. unfold gen_constants_ok. repeat split; reflexivity. Qed.
+Proof. unfold gen_constants_ok. repeat split; try reflexivity. intros [] []; reflexivity. Qed.
+
+Lemma default_multi_rule hashes urls : w_default_multi hashes urls = hashes || urls.
+Proof. destruct hashes, urls; reflexivity. Qed.
 
 (* ------------------------------------------------------------------ character classes *)
 Ltac by_ascii c :=
